@@ -193,9 +193,16 @@ impl LoggerHandle {
 
     /// Flush all writers.
     pub fn flush(&self) {
-        self.writers_handle.primary_writer.flush().ok();
+        self.writers_handle
+            .primary_writer
+            .flush()
+            .unwrap_or_else(|e| {
+                eprint_err(ErrorCode::Flush, "flushing primary writer failed", &e);
+            });
         for writer in self.writers_handle.other_writers.values() {
-            writer.flush().ok();
+            writer.flush().unwrap_or_else(|e| {
+                eprint_err(ErrorCode::Flush, "flushing custom writer failed", &e);
+            });
         }
     }
 
